@@ -572,6 +572,11 @@ func gen(args []string) {
 					case gostatsd.COUNTER:
 						m.Value = float64(r.Intn(21) - 5)
 						m.Rate = hx.Pick(r, rates)
+						if r.Chance(1, 3) {
+							// free (non-dyadic) rates: trunc(value/rate) is an integer, so totals stay exact
+							m.Value = float64(r.Intn(200) + 1)
+							m.Rate = hx.Pick(r, []float64{0.1, 0.13, 0.07, 0.3, 0.9, 0.01, 0.77, 0.29, 0.57})
+						}
 					case gostatsd.TIMER:
 						m.Value = float64(r.Intn(64)) / 2
 						m.Rate = hx.Pick(r, rates)
